@@ -891,7 +891,7 @@ namespace glm {
 	template<>
 	GLM_FUNC_QUALIFIER GLM_CONSTEXPR vec<3, float, packed_highp>::vec(const vec<3, float, aligned_highp>& v)
 	{
-		_mm_store_sd(reinterpret_cast<double*>(this), _mm_castps_pd(v.data));
+		_mm_storel_pi(reinterpret_cast<__m64*>(this), v.data);
 		__m128 mz = _mm_shuffle_ps(v.data, v.data, _MM_SHUFFLE(2, 2, 2, 2));
 		_mm_store_ss(reinterpret_cast<float*>(this)+2, mz);
 	}
@@ -934,20 +934,15 @@ namespace glm {
 	template<>
 	GLM_FUNC_QUALIFIER GLM_CONSTEXPR vec<3, int, aligned_highp>::vec(const vec<3, int, packed_highp>& v)
 	{
-		__m128 mx = _mm_load_ss(reinterpret_cast<const float*>(&v[0]));
-		__m128 my = _mm_load_ss(reinterpret_cast<const float*>(&v[1]));
-		__m128 mz = _mm_load_ss(reinterpret_cast<const float*>(&v[2]));
-		__m128 mxy = _mm_unpacklo_ps(mx, my);
-		data = _mm_castps_si128(_mm_movelh_ps(mxy, mz));
+		data = _mm_set_epi32(0, static_cast<int>(v[2]), static_cast<int>(v[1]), static_cast<int>(v[0]));
 	}
 
 	template<>
 	template<>
 	GLM_FUNC_QUALIFIER GLM_CONSTEXPR vec<3, int, packed_highp>::vec(const vec<3, int, aligned_highp>& v)
 	{
-		_mm_store_sd(reinterpret_cast<double*>(this), _mm_castsi128_pd(v.data));
-		__m128 mz = _mm_shuffle_ps(_mm_castsi128_ps(v.data), _mm_castsi128_ps(v.data), _MM_SHUFFLE(2, 2, 2, 2));
-		_mm_store_ss(reinterpret_cast<float*>(this)+2, mz);
+		_mm_storel_epi64(reinterpret_cast<__m128i*>(this), v.data);
+		this->z = _mm_cvtsi128_si32(_mm_shuffle_epi32(v.data, _MM_SHUFFLE(2, 2, 2, 2)));
 	}
 
 	template<>
@@ -961,20 +956,15 @@ namespace glm {
 	template<>
 	GLM_FUNC_QUALIFIER GLM_CONSTEXPR vec<3, unsigned int, aligned_highp>::vec(const vec<3, unsigned int, packed_highp>& v)
 	{
-		__m128 mx = _mm_load_ss(reinterpret_cast<const float*>(&v[0]));
-		__m128 my = _mm_load_ss(reinterpret_cast<const float*>(&v[1]));
-		__m128 mz = _mm_load_ss(reinterpret_cast<const float*>(&v[2]));
-		__m128 mxy = _mm_unpacklo_ps(mx, my);
-		data = _mm_castps_si128(_mm_movelh_ps(mxy, mz));
+		data = _mm_set_epi32(0, static_cast<int>(v[2]), static_cast<int>(v[1]), static_cast<int>(v[0]));
 	}
 
 	template<>
 	template<>
 	GLM_FUNC_QUALIFIER GLM_CONSTEXPR vec<3, unsigned int, packed_highp>::vec(const vec<3, unsigned int, aligned_highp>& v)
 	{
-		_mm_store_sd(reinterpret_cast<double*>(this), _mm_castsi128_pd(v.data));
-		__m128 mz = _mm_shuffle_ps(_mm_castsi128_ps(v.data), _mm_castsi128_ps(v.data), _MM_SHUFFLE(2, 2, 2, 2));
-		_mm_store_ss(reinterpret_cast<float*>(this) + 2, mz);
+		_mm_storel_epi64(reinterpret_cast<__m128i*>(this), v.data);
+		this->z = static_cast<unsigned int>(_mm_cvtsi128_si32(_mm_shuffle_epi32(v.data, _MM_SHUFFLE(2, 2, 2, 2))));
 	}
 
 	CTORSL(3, CTOR_DOUBLE);
